@@ -41,8 +41,17 @@ def cases(tier, seed):
     for x, y, z in tri:
         pairs = [[[o, x, y], z] for o in progs.OPS4] + [[z, [o, x, y]] for o in ("|", "-")]
         specs.append({"id": "c:%s,%s,%s" % (x[1], y[1], z[1]), "pairs": pairs})
+    qn = ["c16", "c8", "c4", "c16b", "lens", "rsq", "fsq", "ftri"] if tier == "quick" else al.Q_ORDER
+    qs = [progs.L("Q." + q) for q in qn]
+    for i, x in enumerate(qs):
+        for y in qs[i + 1 :]:
+            specs.append({"id": "e:%s,%s" % (x[1], y[1]), "pairs": [[x, y]], "cost": 30})
     for x, y in progs.numeric_pairs(tier):
         specs.append({"id": "d:%s,%s" % (al.expr_id(x), al.expr_id(y)), "pairs": [[x, y]]})
+    n1, n2, n3, n4, n5 = (progs.L("N.N%d#int" % i) for i in range(1, 6))
+    ring12, ring34 = ["-", n1, n2], ["-", n3, n4]
+    deep = ["|", ring12, ring34]
+    specs.append({"id": "g:nested", "pairs": [[ring12, ring34], [deep, n5], [deep, progs.L("P.bar#int")], [progs.L("P.dia#int"), deep], [["|", ring34, n5], progs.L("P.bar#int")], [n2, ["|", ring34, n5]], [progs.L("P.bar#int"), ["|", ["-", n2, n3], n4]]]})
     for name, x, y in progs.DEG_PAIRS:
         specs.append({"id": "f:deg:" + name, "pairs": [[x, y]], "deg": True})
     shapes = progs.p_shapes(names=progs.QUICK_P) + progs.pc_shapes(names=progs.QUICK_PC)
@@ -58,11 +67,15 @@ def judge_pair(x, y, deg, hist, sigs):
     e_all = ["|", x, y]
     leaves, sets, curves, poly = oc.leaves_info(e_all)
     if not poly:
-        return None
-    gp = rg.regions_general_position(sets) if len(sets) > 1 else True
+        from . import c01
+
+        size = max(c.size() for c in curves)
+        gp = c01.curved_general_position(sets, size)
+    else:
+        gp = rg.regions_general_position(sets) if len(sets) > 1 else True
     if not gp and not deg:
         return "excluded"
-    exact = oc.expr_is_rational(e_all)
+    exact = poly and oc.expr_is_rational(e_all)
     fails = []
     res = {}
     for name, e in (("X", x), ("Y", y), ("U", ["|", x, y]), ("I", ["&", x, y]), ("D", ["-", x, y]), ("D2", ["-", y, x]), ("S", ["^", x, y]), ("NX", ["~", x]), ("NY", ["~", y])):
@@ -91,9 +104,14 @@ def judge_pair(x, y, deg, hist, sigs):
             ref = oc.ref_moment(R, a, b)
             if exact:
                 ok = rg.ex(val[k]) == ref
-            else:
+            elif poly:
                 scale = max(abs(ref), F(1, 10**6))
                 ok = oc.close(val[k], ref, scale, F(1, 10**9))
+            else:
+                sz = max(c.size() for c in curves)
+                degs = {len(sg) - 1 for c in rg.interpret(R).curves() for sg in c.segs}
+                nominal = all(pp * (a + b + 2) - 1 <= (4 + a + b + pp) - 1 for pp in degs)
+                ok = abs(rg.ex(val[k]) - ref) <= (F(1, 10**8) if nominal else F(2, 1000)) * sz ** (a + b + 2)
             if not ok:
                 fails.append(("refmoment:" + name, "moment(%d,%d) of %s is %r, exact boundary integral %s" % (a, b, name, val[k], oc.fmt_pt((ref, 0))[1:-4])))
                 break
@@ -141,7 +159,7 @@ def run_case(spec):
         trans += 7
         pid = "%s , %s" % (al.expr_id(x), al.expr_id(y))
         _, sets, _, _ = oc.leaves_info(["|", x, y])
-        ncross = sum(len(rg.poly_crossings(a, b)) for i in range(len(sets)) for j in range(i + 1, len(sets)) for a in sets[i] for b in sets[j])
+        ncross = sum((len(rg.poly_crossings(a, b)) if a.is_poly and b.is_poly else sum(len(rg.bez_bez_crossings(sa, sb, tol=F(1, 10**6))) for sa in a.segs for sb in b.segs)) for i in range(len(sets)) for j in range(i + 1, len(sets)) for a in sets[i] for b in sets[j])
         hist["crossings:%s" % min(ncross, 10)] = hist.get("crossings:%s" % min(ncross, 10), 0) + 1
         if ncross:
             nontrivial.append(pid)
